@@ -654,7 +654,7 @@ impl Check for C04 {
         }
     }
     fn rule(&self) -> String {
-        "definitions = shape grammar: 9 leaves (switch, req_flag, OsString/u32 argument, positional, strict positional, command, pure, fail) under every wrapper (16: optional, optional+catch, many, some, collect+catch, count, last, fallback, failing fallback_with, guard, parse, hide, hide_usage, group_help with a styled non-ASCII title, complete, complete_shell), every wrapper pair (quick: 9 outer wrappers), every binary combination seq/alt/adjacent of two leaves bare, wrapped as a whole and with either side wrapped (thorough: also triples), with 7 rotating option-level configurations (styled multi-fragment non-ASCII descr/header/footer, texts made of every kind of Unicode white space, version, fallback_to_usage, custom help names + usage, max_width), plus titled groups (group_help / with_group_help) at every nesting position around and inside a plain or adjacent block followed by further fields (96 definitions), plus items backed by an environment variable (switch, req_flag, flag, argument, optional / repeated argument, counter, variable only) with the variable set and unset, beside a switch / positional / command, plus nested adjacent structures (group in group, group below an adjacent command) walked to 6-8 items over their own alphabets, group shapes, general shapes and command trees of the other checks; kept iff check_invariants returns; inputs = every single-item vector over the hostile alphabet and every vector of length <= 2 over its sharpest members plus the declared names (empty string, lone dashes, `=` forms, white space other than the blank (tab, CR, LF, VT, FF, NEL, NBSP, U+2003, U+2028) in words / values / names, long non-ASCII words and names (CJK, Cyrillic, emoji), invalid UTF-8 names and values (stray continuation bytes, truncated 2/3/4-byte sequences, bare / with = / with a body), 200-character cluster and word; 600-character cluster / word / value as single-item vectors, help/version tokens, declared names) in 11 modes (parse, parse with name, completion rev 0/1/7/8/9 with name, 1/7/8/9 without) + completion marker first/last; render_markdown/html/manpage once per definition; histories: every length<=1 vector re-run on the used object and on a second object in reverse order; violation = panic (caught), process death or hang (supervisor), or differing outcome; non-trivial = non-panicking run of a non-empty vector; plus completers with edge values (empty / one-sided / blank file and directory masks, empty raw scripts, Nothing; dynamic completers returning empty values and empty, blank or line-break-led descriptions, with no / an empty / a plain group) on positionals and arguments; plus an adjacent command inside an adjacent group inside a narrowed scope".into()
+        "definitions = shape grammar: 9 leaves (switch, req_flag, OsString/u32 argument, positional, strict positional, command, pure, fail) under every wrapper (16: optional, optional+catch, many, some, collect+catch, count, last, fallback, failing fallback_with, guard, parse, hide, hide_usage, group_help with a styled non-ASCII title, complete, complete_shell), every wrapper pair (quick: 9 outer wrappers), every binary combination seq/alt/adjacent of two leaves bare, wrapped as a whole and with either side wrapped (thorough: also triples), with 7 rotating option-level configurations (styled multi-fragment non-ASCII descr/header/footer, texts made of every kind of Unicode white space, version, fallback_to_usage, custom help names + usage, max_width), plus titled groups (group_help / with_group_help) at every nesting position around and inside a plain or adjacent block followed by further fields (96 definitions), plus items backed by an environment variable (switch, req_flag, flag, argument, optional / repeated argument, counter, variable only) with the variable set and unset, beside a switch / positional / command, plus nested adjacent structures (group in group, group below an adjacent command) walked to 6-8 items over their own alphabets, group shapes, general shapes and command trees of the other checks; kept iff check_invariants returns; inputs = every single-item vector over the hostile alphabet and every vector of length <= 2 over its sharpest members plus the declared names (empty string, lone dashes, `=` forms, white space other than the blank (tab, CR, LF, VT, FF, NEL, NBSP, U+2003, U+2028) in words / values / names, long non-ASCII words and names (CJK, Cyrillic, emoji), invalid UTF-8 names and values (stray continuation bytes, truncated 2/3/4-byte sequences, bare / with = / with a body), 200-character cluster and word; 600-character cluster / word / value as single-item vectors, help/version tokens, declared names) in 11 modes (parse, parse with name, completion rev 0/1/7/8/9 with name, 1/7/8/9 without) + completion marker first/last; render_markdown/html/manpage once per definition; histories: every length<=1 vector re-run on the used object and on a second object in reverse order; violation = panic (caught), process death or hang (supervisor), or differing outcome; non-trivial = non-panicking run of a non-empty vector; plus completers with edge values (empty / one-sided / blank file and directory masks, empty raw scripts, Nothing; dynamic completers returning empty values and empty, blank or line-break-led descriptions, with no / an empty / a plain group) on positionals and arguments; plus an adjacent command inside an adjacent group inside a narrowed scope; plus the ambiguous short name behind flag-only names inside one block".into()
     }
     fn bounds(&self, tier: Tier) -> Value {
         json!({"ast_size": tier.pick("<=4 nodes + option-level config", "<=5"), "vector_length": 2, "modes": 17})
